@@ -70,8 +70,12 @@ func (c *constExpr) Exit(node *Node) {
 			}
 
 			out := fn.Call(in)
-			constNode := &ConstantNode{Value: out[0].Interface()}
-			patch(constNode)
+			if value := out[0].Interface(); value == nil {
+				// The constant pool cannot hold nil; a nil result is the nil literal.
+				patch(&NilNode{})
+			} else {
+				patch(&ConstantNode{Value: value})
+			}
 		}
 	}
 }
